@@ -36,8 +36,10 @@ impl WalRecuperator {
 
     /// Runs the recovery
     pub(crate) fn run_recovery(&mut self, analysis: &AnalysisResult) -> RuntimeResult<()> {
-        self.run_undo(&analysis)?;
+        // Winners first: a loser may have written to a table whose CREATE (by a committed transaction) is so far
+        // only in the log, and undoing its work needs that table's catalog entry.
         self.run_redo(&analysis)?;
+        self.run_undo(&analysis)?;
 
         Ok(())
     }
